@@ -27,7 +27,7 @@ RATE_KEYS = ('min_cap', 'max_cap', 'cap_in', 'cap_out', 'inflow', 'cost_store', 
              'min_load_threshhold', 'min_load_costs')
 PROFILE_KEYS = ('start_ramp_lower_bounds', 'start_ramp_upper_bounds', 'shutdown_ramp_lower_bounds', 'shutdown_ramp_upper_bounds', 'start_ramp_lower_bounds_heat',
                 'start_ramp_upper_bounds_heat', 'shutdown_ramp_lower_bounds_heat', 'shutdown_ramp_upper_bounds_heat')
-DUR_KEYS = ('min_runtime', 'min_downtime', 'time_already_running', 'time_already_off', 'max_store_duration')
+DUR_KEYS = ('min_runtime', 'min_downtime', 'time_already_running', 'time_already_off', 'max_store_duration', 'time_back', 'time_forward', 'asset2_time_already_running')
 
 
 def reexpress(spec, new_unit):
@@ -153,7 +153,7 @@ def check_bounds(case, spec, r, ck):
 
 
 def gen_case(rng):
-    kinds = ('contract', 'transport', 'storage', 'storage', 'multi', 'plant', 'plant', 'chp', 'scaled', 'coarse', 'storage_mip', 'orderbook')
+    kinds = ('contract', 'transport', 'storage', 'storage', 'multi', 'plant', 'plant', 'chp', 'scaled', 'coarse', 'storage_mip', 'orderbook', 'linked')
     base = gen.gen_mixed_portfolio(rng, kinds=kinds, grid_kw={'steps': (4, 24), 'dst': bool(rng.random() < 0.45)}, n_assets=(2, 5), n_nodes=(1, 3))
     spec = gen.strip_private(base)
     T_ = len(gen.grid_points(spec['grid']))
@@ -214,6 +214,14 @@ def run_case(rng, tier, case):
         except Exception as e:
             if not any(a['type'] == 'LinkedAsset' for a in spec['assets']):
                 case.check('unit.json_route_same_problem', False, unit=u, freq=spec['grid']['freq'], error='%s: %s' % (type(e).__name__, str(e)[:160]))
+    if rng.random() < 0.3:
+        # time bookkeeping is done per set-up: the same objects set up a second time give the same problem (a duration converted to steps is not converted again)
+        r1b = flow.run_portfolio(spec, built=r1.built, do_optimize=False)
+        if not r1b.ok:
+            case.check('unit.second_setup_same_problem', False, error=flow.describe_error(r1b))
+        else:
+            d1b = problem_diff(Snap(r1.op), Snap(r1b.op), rtol=1e-12, compare_mapping=False)
+            case.check('unit.second_setup_same_problem', d1b is None, diff=d1b, unit=u, freq=spec['grid']['freq'])
     r2 = flow.run_portfolio(sp2, do_extract=False)
     if not r2.ok:
         case.check('unit.setup_still_works', False, units=[u, u2], error=flow.describe_error(r2)); return
